@@ -945,3 +945,35 @@ Proof.
   rewrite <- (map_id ls) at 2. apply map_ext_in. intros l Hl.
   rewrite Forall_forall in H. destruct (H l Hl). apply rejoined_identity; assumption.
 Qed.
+
+(* ---------- the width option ---------- *)
+Theorem cli_identity_proof wstr w keep delims ls :
+  parse_width wstr = Some w ->
+  Forall (fun l => utf8_valid l = true /\ short_line l) ls -> forallb (no_delim 10) ls = true ->
+  ~ In 0 delims ->
+  foldfilter_cli wstr keep delims (fun x => x) (unrecords 10 ls) = CRun (TOk (unrecords 10 ls)).
+Proof.
+  intros Hp H Hlf H0. unfold foldfilter_cli. rewrite Hp. f_equal.
+  apply (tool_identity_proof {| w_width := w; w_keep := keep; w_delims := delims |} ls H Hlf H0).
+Qed.
+
+Lemma digits_value_acc : forall s acc v, digits_value acc s = Some v -> acc <= v \/ acc < 0.
+Proof.
+  induction s as [|c r IH]; intros acc v H; simpl in H.
+  - inversion H. lia.
+  - destruct ((48 <=? c) && (c <=? 57)) eqn:E; [|discriminate].
+    destruct (IH _ _ H) as [I | I]; lia.
+Qed.
+
+(* what is accepted as a width: non-empty, decimal digits only, below 2^64 *)
+Theorem parse_width_spec s w : parse_width s = Some w ->
+  s <> [] /\ forallb (fun c => (48 <=? c) && (c <=? 57)) s = true /\ 0 <= w < 18446744073709551616.
+Proof.
+  unfold parse_width. destruct s as [|c r]; [discriminate|]. set (l := c :: r).
+  destruct (digits_value 0 l) as [v|] eqn:E; [|discriminate].
+  destruct (v <? 18446744073709551616) eqn:Ev; [|discriminate]. intros H. inversion H; subst.
+  split; [discriminate|]. split.
+  - clear Ev H. revert E. generalize 0 at 1. induction l as [|x l IH]; intros acc E; [reflexivity|].
+    simpl in E. simpl. destruct ((48 <=? x) && (x <=? 57)); [|discriminate]. simpl. eapply IH; eauto.
+  - destruct (digits_value_acc _ _ _ E); lia.
+Qed.
